@@ -76,7 +76,7 @@ def run_check(prop, tier, sizes, scale=1.0):
     n_viol_runs = sum(len(v) for v in classes.values())
     reported = []
     known_hits = []
-    for key in sorted(classes)[:6]:
+    for key in sorted(classes)[:4]:
         runs = sorted(classes[key], key=lambda r: (r["n_ops"], r["seed"]))
         r = runs[0]
         v = r["violation"]
@@ -235,6 +235,22 @@ def build_evidence(prop, tier, base, good, harness, reported, known_hits, det, w
             })
     if not samples:
         samples.append({"note": "no sample retained"})
+    from .faults import eligible_sites
+
+    elig = eligible_sites(ns.pkgdir)
+    hit = {}
+    for _callee, site in sites:
+        f, ln = site.rsplit(":", 1)
+        hit.setdefault(f, set()).add(int(ln))
+    site_cov = {}
+    tot_e = tot_h = 0
+    for f in sorted(elig):
+        e = elig[f]
+        h = hit.get(f, set()) & e
+        if e:
+            site_cov[f] = [len(h), len(e)]
+            tot_e += len(e)
+            tot_h += len(h)
     runs = len(good)
     hours = max(wall_campaign, 1e-9) / 3600.0
     cov = {
@@ -259,6 +275,9 @@ def build_evidence(prop, tier, base, good, harness, reported, known_hits, det, w
         "faults_configured": configured,
         "faults_fired": fired,
         "distinct_fault_sites": len(sites),
+        "fault_site_line_coverage": {"total": [tot_h, tot_e], "per_file": site_cov,
+                                     "meaning": "[lines at which an injected abort fired, eligible lines in function "
+                                                "bodies] per file of the package (libcint.py excluded)"},
         "distinct_callee_ambient_outcome_triples": len(triples),
         "distinct_callee_trigrams": len(trigrams),
         "probes": {k: v for k, v in sorted(stats.items())},
